@@ -12,9 +12,6 @@ def stream(file=sys.stdout):
 
     if isinstance(file, str):
         filename = file + ACTIVE_SUFFIX
-        basedir = os.path.dirname(filename)
-        os.makedirs(basedir, exist_ok=True)
-        file = open(filename, 'w')
 
     def write(obj):
         file.write(ejson.dumps(obj, sort_keys=True, ensure_ascii=True)+'\n')
@@ -26,6 +23,12 @@ def stream(file=sys.stdout):
             yield r
 
     def func(package):
+        nonlocal file
+        if filename:
+            # Open the output only once the flow runs, so that a failure to do so is reported as a failing step
+            basedir = os.path.dirname(filename)
+            os.makedirs(basedir, exist_ok=True)
+            file = open(filename, 'w')
         write(package.pkg.descriptor)
         yield package.pkg
         for res in package:
